@@ -161,7 +161,7 @@ PROPS["C04"] = dict(
 PROPS["C08"] = dict(
     pkg="c08", level="exploration", exhaustive_claim=False,
     technique="bounded-exhaustive enumeration of rule subsets x node kinds x all permutations with a metamorphic oracle (order independence) and a clause-by-clause reference table; rapid-sampled larger sets",
-    level_text=("Every subset of size <=2 (quick) / <=3 (thorough) of a 37-atom rule vocabulary is written on each of 10 node kinds, at the root and as an object property, in every order: the verdict must not "
+    level_text=("Every subset of size <=2 (quick) / <=3 (thorough) of a 38-atom rule vocabulary is written on each of 10 node kinds, at the root and as an object property, in every order: the verdict must not "
                 "depend on the order, and where the statement has a clause it must equal a reference table with one block per clause. In the quick tier every 3-subset of atoms of one family (numeric / string / array / object rules together with the generic type, const, nullable, optional, or, enum atoms) is also enumerated on the kinds of that family. Sets of 3-5 rules are sampled with all permutations."),
     level_note="trusted: harness/ref/applicable.go (combinations without a clause are only checked for order independence and counted as excluded)",
     rule=("rule atoms: min/max (in range, equal to the example, disordered), exclusive flags true/false, precision, minLength/maxLength(+disordered), regex, minItems/maxItems(+disordered), additionalProperties, "
@@ -202,7 +202,7 @@ PROPS["C13"] = dict(
                 "(also one-rule-per-line) annotations, quoted rule names, trailing comma, blank lines, rule order. Relation between runs: same Check verdict, same AST modulo comments (rule order normalised when "
                 "permuted), same verdict on a shared batch of documents; and for documents, the same verdict under re-spelling. Sampled."),
     level_note="trusted: that each printer style knob is meaning-preserving (they were validated against the pinned tree: all combinations are accepted identically there); duplicate-key documents are not reordered",
-    rule=("schema pairs: model x 1-5 rewrites drawn from 14 kinds (incl. note-only annotations on the line after their value, bare // annotations, inline and multi-line annotations side by side, notes on enum items); documents: the example, instances and structural mutants (6-7 per schema). non-trivial = >=2 rewrite kinds and the schema has an annotation; "
+    rule=("schema pairs: model x 1-5 rewrites drawn from 15 kinds (incl. several properties per line and one-line containers, note-only annotations on the line after their value, bare // annotations, inline and multi-line annotations side by side, notes on enum items); documents: the example, instances and structural mutants (6-7 per schema). non-trivial = >=2 rewrite kinds and the schema has an annotation; "
           "document pairs: blanks / property order / per-rune escape spelling (raw, \\uXXXX both cases, short escapes, surrogate pairs); non-trivial = some token changed. distinct by (canonical, respelled)"),
     assumptions=["printer styles are meaning-preserving by the language definition (new-line conventions, comments and annotation forms are listed in the statement)"],
     jobs=[job("schema", "^TestSchemaRespelling$", (4, 16), (4000, 15000), (600, 3000)),
